@@ -29,6 +29,8 @@ PROPS["C20"] = {
         "os.isShellSpecialVar / os.isAlphaNum are modelled as single Boolean terms (exact transcriptions); os.Expand and getShellName run from their SSA",
         "regexp.Find on a subject with symbolic digit bytes: one native run with the digits replaced by '0', used only for digit-uniform patterns (every rune instruction accepts all or none of 0-9); all token patterns of imperatives.go are digit-uniform",
         "aggregation interval >= 1 (interval 0 crashes the ticker goroutine: a different property)",
+        "interpolation is driven through the real readConfigFile on a file of the in-memory FS model (os.Create/WriteString/Close, ioutil.ReadFile); package main's flag definitions are modelled (flag.String/Int/Bool return a pointer to the default)",
+        "destinations started by a route (Run, spool) only become runnable goroutines in the engine; nothing is sent",
     ],
     "groups": [
         {"pkg": "cmd/carbon-relay-ng", "hdir": "cmd", "specs": [
